@@ -74,6 +74,20 @@ def _layout(rng, allow_unlabeled=False, min_n=0):
     return {"n": n, "ncls": ncls, "classes": cls}
 
 
+def _float_traps(max_n=160):
+    """(n, p) with p = j/100 where p*n is an integer mathematically but the float product lands just below it"""
+    out = []
+    for n in range(2, max_n + 1):
+        for j in range(1, 100):
+            ex = Fraction(j, 100) * n
+            if ex.denominator == 1 and int((j / 100) * n) != int(ex):
+                out.append((n, j / 100))
+    return out
+
+
+_TRAPS = _float_traps()
+
+
 def _pct(rng, n):
     r = rng.random()
     if r < 0.15:
@@ -99,6 +113,17 @@ def gen_cases(run):
         # seeds: boundary values (0 is falsy!) next to arbitrary ones
         seed = rng.choice([0, 0, 1, 2 ** 31 - 1, 2 ** 32 - 1]) if rng.random() < 0.3 else rng.randrange(10 ** 6)
         spec = {"kind": k, "layout": lay, "seed": seed, "g": [rng.randrange(2 ** 31), rng.randrange(2 ** 31)]}
+        trap = None
+        if k in ("percent", "percent_partition", "subset_percent", "subset_partition") and _TRAPS and rng.random() < 0.2:
+            # boundary class: p*n is an integer, its float product is not (0.58 * 50 = 28.999999999999996)
+            tn, tp = rng.choice(_TRAPS)
+            ncls_t = lay["ncls"] if lay["ncls"] > 1 else 2
+            lay = {"n": tn, "ncls": lay["ncls"], "classes": [rng.randrange(ncls_t) for _ in range(tn)]}
+            spec["layout"] = lay
+            nn = tn
+            trap = tp
+        if k in ("sort", "intra", "over_multiply", "over_exact", "fewshot", "classwise_index", "classwise_percent") and rng.random() < 0.25:
+            spec["inner_shuffle"] = rng.randrange(1000)  # the wrapper sits on a full-length permuting subset of the leaf
         if k == "classfilter":
             pool = list(range(2 if lay["ncls"] == 1 else lay["ncls"]))
             spec["sel"] = rng.sample(pool, rng.randint(0, len(pool)))
@@ -106,14 +131,19 @@ def gen_cases(run):
         elif k in ("percent", "percent_partition"):
             a, b = sorted([_pct(rng, nn), _pct(rng, nn)])
             spec.update(f=a, t=b, cf=rng.random() < 0.5, ct=rng.random() < 0.5, use_f=rng.random() < 0.7, use_t=rng.random() < 0.7,
-                        p=_pct(rng, nn), c=rng.random() < 0.5)
+                        p=_pct(rng, nn) if trap is None else trap, c=rng.random() < 0.5)
+            if trap is not None:
+                spec["t"] = max(spec["t"], trap); spec["f"] = min(spec["f"], trap)
         elif k == "subset_index":
             a = rng.randint(0, nn)
             b = rng.randint(a, nn + 3)
             spec.update(a=a, b=b, use_a=rng.random() < 0.7, use_b=rng.random() < 0.7)
         elif k in ("subset_percent", "subset_partition", "classwise_percent", "classwise_partition"):
             a, b = sorted([_pct(rng, nn), _pct(rng, nn)])
-            spec.update(f=a, t=b, use_f=rng.random() < 0.7, use_t=rng.random() < 0.7, p=_pct(rng, nn))
+            spec.update(f=a, t=b, use_f=rng.random() < 0.7, use_t=rng.random() < 0.7, p=_pct(rng, nn) if trap is None else trap)
+            if trap is not None and rng.random() < 0.5:
+                spec["t"] = trap
+                spec["f"] = min(spec["f"], trap)
         elif k == "repeat":
             spec.update(form=rng.choice(["rep", "min"]), r=rng.randint(1, 5), m=rng.randint(1, 3 * max(nn, 1) + 2))
         elif k == "fewshot":
@@ -141,10 +171,21 @@ def _CODES():
 
 
 def _leaf(lay, names=False):
+    if lay.get("inner_shuffle") is not None:
+        # lay["classes"] is already in base order: rebuild the leaf order from the inverse permutation
+        inv = _INV[0]
+        leaf_classes = [None] * lay["n"]
+        for leaf_i, pos in inv.items():
+            leaf_classes[leaf_i] = lay["classes"][pos]
+        ds = Leaf(lay["n"], tag="L", classes=leaf_classes, n_classes=lay["ncls"])
+        return kdw.ShuffleWrapper(ds, seed=lay["inner_shuffle"])
     ds = Leaf(lay["n"], tag="L", classes=lay["classes"], n_classes=lay["ncls"])
     if names:
         ds.class_names = [f"name{c}" for c in range(2 if lay["ncls"] == 1 else lay["ncls"])]
     return ds
+
+
+_INV = [None]  # leaf index -> position in the (inner-shuffled) base the wrapper under test sits on
 
 
 def _ids(run, w, what):
@@ -152,7 +193,7 @@ def _ids(run, w, what):
         out = []
         for i in range(len(w)):
             tok = w.getitem_x(i)
-            out.append(tok[1])
+            out.append(tok[1] if _INV[0] is None else _INV[0][tok[1]])
         return out
     ok, ids = call_real(run, f, what=f"{what}: reading the selection")
     return ids if ok else None
@@ -204,6 +245,13 @@ def _differential(run, spec, build, what):
 def run_case(run, spec):
     k = spec["kind"]
     lay = spec["layout"]
+    _INV[0] = None
+    if spec.get("inner_shuffle") is not None and lay["n"] > 0:
+        # the wrapper under test is stacked on ShuffleWrapper(leaf): positions of that base are the "original order" of the promise
+        perm = [int(i) for i in kdw.ShuffleWrapper(_leaf(lay), seed=spec["inner_shuffle"]).indices]
+        _INV[0] = {leaf_i: pos for pos, leaf_i in enumerate(perm)}
+        lay = dict(lay, classes=[lay["classes"][j] for j in perm], inner_shuffle=spec["inner_shuffle"])
+        run.count("cases_on_inner_shuffle")
     n, cls, ncls = lay["n"], lay["classes"], lay["ncls"]
     run.cover(k, min(n, 3), _layout_class(lay), "binary-dim1" if ncls == 1 and 1 in cls else "multi")
     dim1 = ncls == 1
